@@ -20,8 +20,9 @@ fn op<T>(v: T) -> T { OPER.fetch_add(1, SeqCst); v }
 impl std::fmt::Debug for CD { fn fmt(&self, f: &mut std::fmt::Formatter<'_>) -> std::fmt::Result { DBG.fetch_add(1, SeqCst); write!(f, "{}", self.0) } }
 impl PartialEq<i32> for CD { fn eq(&self, o: &i32) -> bool { self.0 == *o } }
 impl PartialOrd<i32> for CD { fn partial_cmp(&self, o: &i32) -> Option<std::cmp::Ordering> { self.0.partial_cmp(o) } }
-#[derive(Debug, Clone)] struct H { v: i32 }
-impl H { fn bump(&self) -> i32 { METH.fetch_add(1, SeqCst); self.v } fn add(&self, k: i32) -> i32 { self.v + k }
+#[derive(Debug)] struct H { v: i32 }
+impl Clone for H { fn clone(&self) -> H { ev("clone", H { v: self.v }) } }
+impl H { fn bump(&self) -> i32 { METH.fetch_add(1, SeqCst); ev("bump", self.v) } fn add(&self, k: i32) -> i32 { self.v + k }
   async fn abump(&self) -> i32 { METH.fetch_add(1, SeqCst); self.v } }
 /// a minimal executor for the `.await` cells (the futures here are always ready)
 fn block_on<F: std::future::Future>(f: F) -> F::Output {
@@ -155,6 +156,15 @@ ORDER_CASES = [
     ("P2 { a: 1, b: 2 }", "P2 { a: == ev(\"t1\", 1), b: == ev(\"t2\", 3), a: > ev(\"t3\", 1), b: <= ev(\"t4\", 2) }", "fail"),
 ]
 
+# the same question asked of the MODEL: chains made of the two methods the model knows on this value (`bump`, `clone`; both log their name in
+# the real program).  The names the real program logs, the names in the trace of the model's execution (OrderP.mlist) and the names in the
+# order they are written must be one and the same list - the per-instance tie of c08_struct_fields_evaluated_in_written_order to rustc
+MODEL_ORDER_CASES = [
+    "W { h.bump(): 5, n: 5, h.clone().bump(): 5, h.bump(): > 3, .. }", "_ { h.bump(): 5, h.clone().bump(): 1..=9, n: 5, h.bump(): == 5, .. }",
+    "W { h.clone().clone().bump(): 5, h.bump(): 5, .. }", "W { n: 5, h.clone().bump(): 5, n: > 1, h.bump(): 5, h.clone().clone().bump(): 5, .. }",
+    "W { h.bump(): 5, oc: Some(== 5), h.clone().bump(): |cl_x| cl_x == 5, .. }",
+]
+
 NO_MODEL = {"range_const_hi": "range", "range_assoc_const": "range"}
 
 # patterns that assert nothing, at the root and after a chain: (id, body, which counter, expected count by the property)
@@ -228,9 +238,10 @@ def run(res):
                           "body": "let v = w(); " + ("block_on(async { %s });" % call if is_async else call)})
     ord_cases = [{"id": "ord_%d" % i, "value": v, "pattern": p_, "outcome": o_, "body": "let v = %s; assert_struct!(v, %s);" % (v, p_)}
                  for i, (v, p_, o_) in enumerate(ORDER_CASES)]
+    mord_cases = [{"id": "mord_%d" % i, "pattern": p_, "body": "let v = w(); assert_struct!(v, %s);" % p_} for i, p_ in enumerate(MODEL_ORDER_CASES)]
     src = (e2e.PRELUDE + DECLS + "fn main() { std::panic::set_hook(Box::new(|_| {}));\n" +
            "\n".join("    counted(\"%s\", || { %s });" % (c["id"], c["body"]) for c in cases + oper_cases + rep_cases + zero_cases) + "\n" +
-           "\n".join("    ordered(\"%s\", || { %s });" % (c["id"], c["body"]) for c in ord_cases) + "\n}\n")
+           "\n".join("    ordered(\"%s\", || { %s });" % (c["id"], c["body"]) for c in ord_cases + mord_cases) + "\n}\n")
     out = e2e.compile_many([src], run=True, tag="c08")
     e2e.cleanup("c08")
     if not out[0]["compiled"]:
@@ -360,6 +371,31 @@ def run(res):
                 res.violation("failing-input", "`assert_struct!(%s, %s)` writes its chains and operands in the order %s; they are evaluated in the order %s "
                               "(with a stateful receiver each pattern then tests another value than the one written before it)"
                               % (c["value"], c["pattern"], " ".join(written), " ".join(r[1])), {"program_body": c["body"], "evaluated": r[1], "written": written})
+    # ... and the model's own order on the chains it can express
+    mmac2 = maclib.run_mac(["v, " + c["pattern"] for c in mord_cases], mode="parse")
+    mreq2 = []
+    for c, m_ in zip(mord_cases, mmac2):
+        f_ = m_.split("\t")
+        if f_[0] != "ok":
+            raise vlib.CheckError("the real parser rejects %s: %s" % (c["pattern"], m_[:200]))
+        mreq2.append("sem\t()\t(%s)\t%s\t%s\t%s" % (hx("None"), W_MODEL, f_[1], f_[2]))
+    mord_dis = 0
+    for c, l_ in zip(mord_cases, vlib.run_model(mreq2)):
+        m_ = semstage.parse_sem_line(l_)
+        r_ = real_ord.get(c["id"])
+        written = _re.findall(r"\b(bump|clone)\(\)", c["pattern"])
+        model_order = m_["trace"].get("order") if m_["exec"] == [] else None
+        if r_ is None or r_[0] != "pass":
+            raise vlib.CheckError("model-order case `%s`: %r (intended pass)" % (c["pattern"], r_))
+        if r_[1] != written:
+            ord_bad += 1
+            failing += 1
+            res.violation("failing-input", "`assert_struct!(w(), %s)` writes the calls %s; they are evaluated in the order %s" % (c["pattern"], " ".join(written), " ".join(r_[1])),
+                          {"program_body": c["body"], "evaluated": r_[1], "written": written})
+        elif model_order != written:
+            mord_dis += 1
+            dis += 1
+    res.streams["evaluation-order(model)"] = {"cases": len(mord_cases), "model_disagreements": mord_dis}
     res.streams["evaluation-order"] = {"cases": len(ord_cases), "failures": ord_bad, "failing_path_cases": sum(1 for c in ord_cases if c["outcome"] == "fail")}
     # patterns that assert nothing: what they are applied to must still be evaluated once (recorded finding when it is 0 times)
     zero_bad = 0
